@@ -257,6 +257,45 @@ def warm(a, da=None):
     return a
 
 
+def initial_labels(l):
+    """other labels of the same kind and number, in the reverse order (so that whatever is remembered about their order is wrong afterwards)"""
+    l = list(l)
+    if any(isinstance(x, str) for x in l):
+        return ["~" + x for x in l[::-1]]
+    if any(isinstance(x, float) for x in l):
+        return [float(x) + 0.5 for x in l[::-1]]
+    return [int(x) + 7 for x in l[::-1]]
+
+
+def build_initial(spec, da=None):
+    """first half of a *re-used* object: an array of the wanted shape, dtype and dims that still carries OTHER labels (same kinds,
+    reverse order) and other values; the caller uses it (queries, operations whose results are thrown away) and then calls finalise()"""
+    da = da or env.import_dimarray()
+    vals = spec_values(spec)
+    dims, labels = list(spec["dims"]), [list(l) for l in spec["labels"]]
+    if vals.dtype.kind in "iuf":
+        v0 = (vals[tuple([slice(None, None, -1)] * vals.ndim)] + 1).astype(vals.dtype) if vals.ndim else np.array(vals + 1, dtype=vals.dtype)
+        if vals.dtype.kind == "f":
+            v0 = np.where(np.isnan(v0), 0.25, v0).astype(vals.dtype)        # (no NaN yet: the final values may bring some)
+    else:
+        v0 = np.array(vals, copy=True)
+    return da.DimArray(np.array(v0, copy=True, order="C"), axes=[da.Axis(label_array(initial_labels(l)) if l else label_array(l), d) for l, d in zip(labels, dims)])
+
+
+def finalise(a, spec):
+    """second half: the labels are replaced IN PLACE through the public setter and the values are written into the array's own buffer;
+    from here on the object must behave exactly like a freshly constructed array of that content"""
+    vals = spec_values(spec)
+    for d, l in zip(spec["dims"], spec["labels"]):
+        if len(l):
+            a.set_axis(label_array(l), axis=d)
+    if a.values.dtype == vals.dtype and a.values.shape == vals.shape:
+        a.values[...] = vals
+    else:
+        a.values = vals
+    return a
+
+
 def build(spec, da=None, attrs=None):
     """DimArray from a spec (always hands ndarrays and Axis objects to the constructor).
 
@@ -266,14 +305,16 @@ def build(spec, da=None, attrs=None):
     values are then a non-contiguous view); {"mode": "relabel"} built with labels 0..n-1, warmed, then relabelled in
     place with set_axis; {"mode": "transposed"} the transpose of an array stored in reversed dimension order; {"mode": "fortran"}
     column-major storage; {"mode": "copyof"} a shallow copy of another, heavily used array that then received these values and axes
-    through the public setters; {"mode": "renamed"} built under rotated dimension names, queried by name, then renamed in place."""
+    through the public setters; {"mode": "renamed"} built under rotated dimension names, queried by name, then renamed in place;
+    {"mode": "reused"} built with other labels of the same kinds (reverse order) and other values, used (warm: queries and non-in-place
+    operations), then relabelled in place and overwritten in its own buffer."""
     da = da or env.import_dimarray()
     vals = spec_values(spec)
     dims, labels = list(spec["dims"]), [list(l) for l in spec["labels"]]
     hist = spec.get("hist") or {"mode": "none"}
     mode = hist.get("mode", "none")
     if not dims:
-        mode = "none" if mode in ("slice", "relabel", "transposed", "fortran", "renamed") else mode
+        mode = "none" if mode in ("slice", "relabel", "transposed", "fortran", "renamed", "reused") else mode
     if mode == "renamed" and len(dims) < 2:
         mode = "warm"
     if mode == "copyof" and vals.dtype not in (np.dtype(float), np.dtype(int), np.dtype(bool), np.dtype(object)):
@@ -305,6 +346,13 @@ def build(spec, da=None, attrs=None):
         for d, l in zip(dims, labels):
             if len(l):
                 a.set_axis(label_array(l), axis=d)
+    elif mode == "reused":
+        # an object that was used before under other labels (same kinds) and other values, then relabelled and overwritten in place
+        a = build_initial(spec, da)
+        warm(a, da)
+        finalise(a, spec)
+        if a.values.dtype != vals.dtype:
+            raise Violation("history-build-changed-dtype", {"what": "values written into the buffer of a re-used array", "got": str(a.values.dtype), "expected": str(vals.dtype)}, sig={"op": "build"})
     elif mode == "fortran":
         a = da.DimArray(np.asfortranarray(vals), axes=[da.Axis(label_array(l), d) for l, d in zip(labels, dims)])   # column-major storage
         warm(a, da)
